@@ -211,3 +211,52 @@ func VH_C13_fact_expiring(kind, key, vk, enc int) {
 	vhCanary(env, in)
 	vreach("end")
 }
+
+// VH_C13_overwrite_rejected: an existing, working rule; an overwrite of its id that is
+// refused (an odd rule body); the old rule is still stored, so it must still be dispatched,
+// and the location keeps serving. odd: 0 rule without when ({"rule":{"foo":1}}), 1 when of
+// the wrong kind, 2 a rule whose when holds an unsortable array.
+func VH_C13_overwrite_rejected(kind, odd int) {
+	env, in := vhDispatchEnv(kind)
+	_, err := env.loc.AddRule(env.ctx, "r1", vhRule(map[string]interface{}{"a": "?x"}, "act"))
+	vassume(err == nil)
+	var body map[string]interface{}
+	switch odd {
+	case 0:
+		body = map[string]interface{}{"foo": float64(1)}
+	case 1:
+		body = map[string]interface{}{"when": float64(5), "action": vhAction("z")}
+	case 2:
+		body = map[string]interface{}{"when": map[string]interface{}{"pattern": map[string]interface{}{"a": []interface{}{map[string]interface{}{"k": "1"}, map[string]interface{}{"k": "2"}}}}, "action": vhAction("z")}
+	}
+	_, aerr := env.loc.AddFact(env.ctx, "r1", Map{"rule": body})
+	_, gerr := env.loc.GetRule(env.ctx, "r1")
+	_, cond := env.loc.ProcessEvent(env.ctx, Map{"a": "1"})
+	vassert(cond == nil, "canary-after-op")
+	if aerr != nil && gerr == nil {
+		// refused, and the old rule is still there: it still fires
+		vassert(vhFired(in, "r1", "act") == 1, "rejected-overwrite-leaves-the-old-rule-working")
+	}
+	_, err = env.loc.AddFact(env.ctx, "later", Map{"k": "v"})
+	vassert(err == nil, "canary-after-op")
+	vreach("end")
+}
+
+// VH_C13_protprop: a protection property (!enabled, !writeKey, !readKey; prop 3 = !parents is not in the registered sets) written
+// with a value of the wrong JSON kind (anything but a string: those are the legitimate
+// settings) is an unusual input, not a way to lock the location: ordinary traffic keeps
+// working afterwards.
+func VH_C13_protprop(kind, prop, vk int) {
+	vassume(vk != 3 && vk != 9) // strings are real settings (C19)
+	env, in := vhC13Env(kind)
+	name := []string{"!enabled", "!writeKey", "!readKey", "!parents"}[prop]
+	if prop == 3 {
+		vassume(vk != 5 && vk != 7) // arrays of strings are real parent lists (C09)
+	}
+	p := vhTry(func() {
+		env.loc.AddFact(env.ctx, "", Map{name: vhKindValue("v", vk)})
+	})
+	vassert(!p, "no-panic")
+	vhCanary(env, in)
+	vreach("end")
+}
